@@ -83,6 +83,17 @@ def _f20(sub, r):
     return tuple(GX.qid_shape(a)) != tuple(GX.qid_shape(b))
 
 
+def _f23(sub, r):
+    """PauliInteractionGate approximate equality ignores the Pauli axes / invert flags (and poisons the == cache)."""
+    if sub != "equality":
+        return False
+    a, b = r.get("a", [None]), r.get("b", [None])
+    if a[0] != "PauliInteraction" or b[0] != "PauliInteraction":
+        return False
+    key = lambda p: (p.get("p0"), bool(p.get("i0")), p.get("p1"), bool(p.get("i1")))
+    return key(a[1]) != key(b[1])
+
+
 def _f21(sub, r):
     """Gate._commutes_ does not forward atol: gate-level pairs that commute only within a requested atol > 1e-8
     (one of the gates has a tiny parameter) get a definite False."""
@@ -112,7 +123,8 @@ def _f17(sub, r):
 # F9 (Pauli._commutes_ identity test) and F16/F16b (qudit X/Z controlled) were repaired in /repo: their predicates are gone and
 # their minimal inputs are regression examples of the sub-checks.
 KNOWN_FEATURES = {"F13_phasedxz_eq_global_phase": _f13, "F15_clifford_commutes_up_to_phase": _f15,
-                  "F17_phasedxz_stabilizer_false_negative": _f17, "F19_controlled_dense_pauli_identity": _f19, "F20_matrixgate_approx_eq_shapes": _f20, "F21_gate_commutes_drops_atol": _f21, "F22_ionq_ms_equality_ignores_theta": _f22}
+                  "F17_phasedxz_stabilizer_false_negative": _f17, "F19_controlled_dense_pauli_identity": _f19, "F20_matrixgate_approx_eq_shapes": _f20, "F21_gate_commutes_drops_atol": _f21, "F22_ionq_ms_equality_ignores_theta": _f22,
+                  "F23_pauli_interaction_approx_values": _f23}
 
 
 def _dev_exclude(sub, recipe):
